@@ -70,7 +70,7 @@ Proof.
     + intros E. exfalso. destruct Fin as [E1|d E1|E1|b E1]; rewrite E1 in E; try discriminate.
       * destruct m; discriminate.
       * destruct b, m; discriminate.
-    + intros _. destruct (Final_time _ _ _ _ _ _ _ _ _ Fin) as (T0 & T1 & T2).
+    + intros _. destruct (Final_time _ _ _ _ _ _ _ _ _ Fin) as (T0 & T1 & _ & T2).
       unfold time_ok. change (normalise (obj0 0 false (dflt o)) blk tm) with (norm' (dflt o) blk tm).
       destruct (norm' (dflt o) blk tm) as [b' tm'] eqn:En. cbn [fst snd] in *.
       destruct b'; cbn [negb].
